@@ -7,10 +7,11 @@ ap = argparse.ArgumentParser()
 ap.add_argument('--tier', default='quick')
 ap.add_argument('--props', default='')
 ap.add_argument('--also', default='', help='comma list of extra properties to run for every mutant')
+ap.add_argument('--out', default='mutrun_results.json')
 ap.add_argument('seeds', nargs='*')
 a = ap.parse_args()
-seeds = a.seeds or sorted(glob.glob(os.path.join(VERIF, 'seeded', '*')))
-resf = os.path.join(VERIF, 'work', 'mutrun_results.json')
+seeds = [os.path.abspath(x) for x in a.seeds] or sorted(glob.glob(os.path.join(VERIF, 'seeded', '*')))
+resf = os.path.join(VERIF, 'work', a.out)
 os.makedirs(os.path.dirname(resf), exist_ok=True)
 results = json.load(open(resf)) if os.path.exists(resf) else {}
 for sd in seeds:
